@@ -495,6 +495,87 @@ def run(ctx):
     ctx.ob("C14.F11.pending-tokenizer-error-is-handed-on", "all-parser-functions", True, "calls checked: %d" % n11, "")
     ctx.floor("C14.F11 calls of TokenStream::current", n11, 60)
     ctx.sample({"Err exits": len(errs), "process_err calls": len(perr)})
+    # F14: the formatting code itself
+    fmt_fns = [f_ for f_ in sorted(prog.fns.values(), key=lambda x: x.path) if f_.crate == "minijinja" and (
+        f_.loc.f.endswith("minijinja/src/debug.rs") or (f_.loc.f.endswith("minijinja/src/error.rs") and (
+            "::fmt" in f_.path or "render" in f_.path or "Display" in f_.path)))]
+    ctx.floor("C14.F14 formatting functions", len(fmt_fns), 4)
+    n14 = check_formatting_cannot_panic(ctx, prog, fmt_fns)
+    ctx.count("C14.F14 operations that panic on a short slice", n14)
+    sub14 = ctx.fresh()
+    cprog = ctx.controls
+    check_formatting_cannot_panic(sub14, cprog, [cprog.fn("mjsa_controls::c14::excerpt_unguarded"), cprog.fn("mjsa_controls::c14::excerpt_guarded")], "control:")
+    bad14 = [o for o in sub14.obligations if not o[2]]
+    ctx.control("C14.F14", len(bad14) == 1 and "excerpt_unguarded" in bad14[0][1] and len(sub14.obligations) >= 2)
+
+
+PANICKY_CALLS = ("::unwrap", "::expect", "::split_at", "::split_at_mut", "::swap_remove", "::remove", "::copy_from_slice")
+
+
+def _asks_for_the_length(f, bb):
+    """does a test of a length / emptiness / presence dominate bb (`if rest.is_empty()`, `idx < lines.len()`, a
+    `get(..)` / `first()` / `split_first()` that was matched)"""
+    for (sb, taken) in flow.guards(f, bb):
+        cd = flow.cond_of(f, sb)
+        ops_ = []
+        if cd.kind == "bin":
+            ops_ = [cd.rv["a"], cd.rv["b"]]
+        elif cd.kind == "call":
+            if cd.call.name.split("::")[-1] in ("is_empty", "is_some", "is_none", "is_char_boundary", "contains", "starts_with"):
+                return True
+            ops_ = list(cd.call.args)
+        elif cd.kind in ("local", "discr") and cd.place is not None:
+            ops_ = [{"cp": cd.place}]
+        for op in ops_:
+            if "c" in op:
+                continue
+            for o in flow.origins(f, op):
+                if o.kind == "call" and o.call.name.split("::")[-1] in (
+                        "len", "is_empty", "get", "first", "last", "split_first", "split_last", "checked_sub", "find", "position",
+                        "strip_prefix", "strip_suffix", "count"):
+                    return True
+                rv = getattr(o, "rv", None)
+                if rv and (rv.get("k") == "len" or (rv.get("k") == "un" and rv.get("op") == "PtrMetadata")):
+                    return True
+    return False
+
+
+def check_formatting_cannot_panic(ctx, prog, fns, tag="", rule="C14.F14.formatting-an-error-does-not-panic"):
+    """F14 (round 12, seed C14-12): `{}`, `{:#}`, `{:?}` and `display_debug_info()` of an error never panic - also for
+    the errors whose location is one past the last line, or that have no line at all.  In the code that formats an
+    error (the `fmt` implementations of the error module, the source excerpt of the debug module) every operation that
+    panics on a short slice - a range index, an element index (bounds check), `split_at`, `unwrap` / `expect` - sits
+    behind a test of the length, emptiness or presence it relies on.  Returns the number of such operations."""
+    n = 0
+    for f in fns:
+        sites = []
+        for c in f.calls():
+            last = c.name.split("::")[-1]
+            if last in ("index", "index_mut") and "Index" in c.name and any(
+                    r in " ".join(f.locals[op_place(a)["l"]].get("s", "") for a in c.args[1:] if op_place(a) is not None and "p" not in op_place(a))
+                    for r in ("Range", "usize")):
+                sites.append((c.bb, "slice[%s]" % ("range" if "Range" in " ".join(
+                    f.locals[op_place(a)["l"]].get("s", "") for a in c.args[1:] if op_place(a) is not None and "p" not in op_place(a)) else "index")))
+            elif c.name.endswith(PANICKY_CALLS) and c.name.startswith(("core::", "alloc::", "std::")):
+                if last.startswith("split_at") and len(c.args) == 2 and any(
+                        o.kind == "call" and o.call.name.split("::")[-1] in ("min", "len") for o in flow.origins(f, c.args[1])):
+                    continue        # `split_at(n.min(xs.len()))`: clamped to the length
+                sites.append((c.bb, last))
+        for bb in sorted(f.reachable):
+            t = f.term(bb)
+            if t["k"] == "assert" and str(t.get("kind", "")).startswith("BoundsCheck"):
+                sites.append((bb, "element index"))
+        per = {}
+        for bb, what in sites:
+            n += 1
+            per[what] = per.get(what, 0) + 1
+            nm = f.path.split("::")[-1] if f.kind != "closure" else f.path.split("::", 2)[-1]
+            ctx.ob(rule, "%s%s|%s#%d" % (tag, nm, what, per[what]), _asks_for_the_length(f, bb),
+                   "%s does `%s` without a test of the length / presence it relies on: an error whose line is one past the "
+                   "last line of the source (a lexer error at the end of input after a kept trailing newline) or that has "
+                   "no line (an empty expression) makes formatting it panic" % (nm, what), f.where(bb))
+    return n
+
 
 
 def _bool_from_enum(f, sb, adt):
